@@ -151,6 +151,14 @@ func parseBlock(t *Tree, start Pos) (Node, error) {
 	if err != nil {
 		return nil, err
 	}
+	// A block name can be defined only once per template (or embed body). The
+	// name is reserved before the body is parsed, so that a block nested in a
+	// block of the same name - which would render itself without end - is
+	// caught as well.
+	if _, ok := t.Blocks()[blockName.value]; ok {
+		return nil, newDuplicateBlockError(blockName)
+	}
+	t.setBlock(blockName.value, nil)
 	body, err := t.parseUntilEndTag("block", start)
 	if err != nil {
 		return nil, err
